@@ -30,6 +30,15 @@ def check(A, only_decode=False, prefix='C02'):
         for fl in S.FLAVOURS:
             S.post_request(A, fl, 'C02')
     _decode_part(A, m, dec, prefix)
+    if not only_decode:
+        # what the framing carries: each split-off packet text goes through Packet.decode
+        # (shared with C01), a zero-packet payload is still a payload (BaseServer._ok), and the
+        # ASGI driver hands the whole body to decode()
+        from . import C01
+        from . import srvrules as R
+        C01.decode_cases(A, m.const_value(m.module('packet'), 'MESSAGE'), prefix='C02')
+        R.constructor_rules(A, 'C02')
+        R.asgi_body_rule(A, 'C02')
 
 
 def _encode_part(A, m, enc):
